@@ -262,3 +262,26 @@ Definition delta_offset_clash (r : reg) (ua ub : uc) : bool :=
 
 (** literals written by the harness *)
 Definition mkqty (m : mag) (l : list (string * Qc)) : qty := Qty m (mkuc l).
+
+(** * Registry mode [autoconvert_offset_to_baseunit]
+    Between two quantities, [__eq__], [compare] and [__hash__] read the flag in one place only:
+    [_validate_and_extract] tolerates a single offset unit inside a compound container when it is
+    set.  (The bare-number branches and the arithmetic predicate [_ok_for_muldiv] read it too;
+    [_ok_for_muldiv] is NOT what guards the both-zero shortcut: with the flag set it accepts a
+    lone offset unit, for which zero is not zero in root units.) *)
+Definition validate_extract_mode (autoconvert : bool) (r : reg) (u : uc) : res (option string) :=
+  nm ←r nonmult_list r u;
+  match nm with
+  | [] => Ok None
+  | [(k, e)] => if negb (bool_decide (e = 1%Qc)) then Err EDim
+                else if Nat.ltb 1 (size u) && negb autoconvert then Err EDim
+                else Ok (Some k)
+  | _ => Err EDim
+  end.
+Definition ok_for_muldiv (autoconvert : bool) (r : reg) (q : qty) : res bool :=
+  nm ←r nonmult_list r (q_u q);
+  Ok (match nm with
+      | [] => true
+      | [(k, e)] => negb (Nat.ltb 1 (size (q_u q))) && autoconvert && bool_decide (e = 1%Qc)
+      | _ => false
+      end).
